@@ -141,3 +141,246 @@ def c08_template(ctx, p):
     toks = ctx.impl.tokenize(src, ds, de)
     got = [(t['kind'], t['bs'], t['be']) for t in toks]
     ctx.check(got == ref, f'token spans {got} differ from the left-to-right scan {ref}', c08_role(src, ds, de, ref, got))
+
+
+# ---------------------------------------------------------------- C09 tag grammar
+NAME_EXCL = (32, 10, 9, 13, 61, 34, 39, 47)  # blank, line break, tab, CR, '=', quotes, '/'
+
+
+def gen_tag(ctx, p, ds, de):
+    """build a well-formed tag from the shape in p; returns (src, expected name span, expected attrs)"""
+    excl_delim = tuple({ds[0], de[0]})
+    src = list(ds)
+    src += ctx.bytes('padl', p['pad_l'], only=(32,))
+    nm = ctx.bytes('name', p['name_len'], exclude=NAME_EXCL + excl_delim)
+    name_span = [len(src), len(src) + len(nm)]
+    src += nm
+    attrs = []
+    for k, at in enumerate(p['attrs']):
+        sep = ctx.bytes(f'sep{k}', at['sep_len'], only=(32, 10))
+        src += sep
+        an = ctx.bytes(f'an{k}', at['name_len'], exclude=NAME_EXCL + excl_delim)
+        aspan = [len(src), len(src) + len(an)]
+        src += an
+        if at['kind'] == 'bare':
+            attrs.append([aspan, None])
+        else:
+            src += [32] * at['eq_l'] + [61] + [32] * at['eq_r']
+            q = ctx.bytes(f'q{k}', 1, only=(34, 39))[0]
+            val = ctx.bytes(f'val{k}', at['val_len'], exclude=(de[0],))
+            for b in val:
+                ctx.constrain(b_not(b_eq(b, q)))
+            src.append(q)
+            vspan = [len(src), len(src) + len(val)]
+            src += val
+            src.append(q)
+            attrs.append([aspan, vspan])
+    src += ctx.bytes('padr', p['pad_r'], only=(32,))
+    src += list(de)
+    return src, name_span, attrs
+
+
+def c09_role(src, exp_name, exp_attrs, got):
+    def role():
+        if got is None:
+            return 'well-formed-tag-rejected'
+        # D4-style: a line break between attributes swallowed into the next attribute name
+        for (ga, gv) in got['attrs']:
+            if ga[0] >= 0 and src[ga[0]] == 10:
+                return 'line-break-kept-in-attribute-name'
+        return 'tag-parse-mismatch'
+    return role
+
+
+@harness('c09_grammar', covers=['line-break-separator', 'value-contains-blank-or-eq', 'value-contains-start-delimiter', 'two-blank-separator'])
+def c09_grammar(ctx, p):
+    ds, de = list(p['ds'].encode()), list(p['de'].encode())
+    src, name_span, attrs = gen_tag(ctx, p, ds, de)
+    for k, at in enumerate(p['attrs']):
+        sep = ctx.I.vars[f'sep{k}'] if ctx.symbolic else ctx.values[f'sep{k}']
+        cover_if(ctx, 'line-break-separator', b_or(b_eq(b, 10) for b in sep))
+        if len(sep) == 2:
+            cover_if(ctx, 'two-blank-separator', b_and(b_eq(b, 32) for b in sep))
+        if at['kind'] != 'bare' and at['val_len']:
+            val = ctx.I.vars[f'val{k}'] if ctx.symbolic else ctx.values[f'val{k}']
+            cover_if(ctx, 'value-contains-blank-or-eq', b_or(isin(b, (32, 61, 10)) for b in val))
+            cover_if(ctx, 'value-contains-start-delimiter', b_or(b_eq(b, ds[0]) for b in val))
+    r = ctx.impl.tags(src, ds, de)
+    spans = [(t['kind'], t['bs'], t['be']) for t in r['tokens']]
+    ctx.check(spans == [('E', 0, len(src))], f'well-formed tag is not one tag token: {spans}', 'tag-not-one-token')
+    got = r['tags'][0]
+    role = c09_role(src, name_span, attrs, got)
+    ctx.check(got is not None, 'well-formed tag rejected by the tag parser', role)
+    ctx.check(got['name'] == name_span, f"name span {got['name']} != expected {name_span}", role)
+    ctx.check(got['attrs'] == attrs, f"attributes {got['attrs']} != expected {attrs}", role)
+
+
+def c09_shapes(max_attrs, val_max, seed, limit):
+    import itertools, random
+    shapes = []
+    kinds = []
+    for sep_len in (1, 2):
+        kinds.append(dict(kind='bare', sep_len=sep_len, name_len=1))
+        for eq_l, eq_r in ((0, 0), (1, 0), (0, 1), (1, 1)):
+            for vl in range(0, val_max + 1):
+                kinds.append(dict(kind='quoted', sep_len=sep_len, name_len=1, eq_l=eq_l, eq_r=eq_r, val_len=vl))
+    kinds.append(dict(kind='bare', sep_len=1, name_len=2))
+    kinds.append(dict(kind='quoted', sep_len=1, name_len=2, eq_l=0, eq_r=0, val_len=1))
+    for n in range(0, max_attrs + 1):
+        for combo in itertools.product(kinds, repeat=n):
+            for pad_l, pad_r in ((0, 0), (1, 1)):
+                shapes.append(dict(pad_l=pad_l, pad_r=pad_r, name_len=1 if n else 2, attrs=list(combo)))
+    rnd = random.Random(seed)
+    small = [s for s in shapes if len(s['attrs']) <= 1]
+    big = [s for s in shapes if len(s['attrs']) > 1]
+    rnd.shuffle(big)
+    return small + big[:max(0, limit - len(small))]
+
+
+# ---------------------------------------------------------------- C10 pairing
+SLOT_KINDS = ['open x', 'open y', 'close x', 'close y', 'close z', 'text']
+
+
+def oracle_pairing(ctx, toks):
+    """toks: list of ('T',) | ('O', name_byte) | ('C', name_byte); returns the tree the statement prescribes:
+    nested lists ['T', i] | ['E', open_i, close_i, children]"""
+    root = []
+    stack = []  # entries: [open_idx, name, children]
+
+    def cur():
+        return stack[-1][2] if stack else root
+
+    for i, t in enumerate(toks):
+        if t[0] == 'T':
+            cur().append(['T', i])
+        elif t[0] == 'O':
+            stack.append([i, t[1], []])
+        else:
+            d = None
+            for k in range(len(stack) - 1, -1, -1):
+                if ctx.branch(b_eq(stack[k][1], t[1])):
+                    d = k
+                    break
+            if d is None:
+                cur().append(['T', i])  # stray closing tag: inert text
+                continue
+            # elements opened after d and still unclosed become text; their children go to the enclosing element
+            while len(stack) > d + 1:
+                oi, _, ch = stack.pop()
+                cur().extend([['T', oi]] + ch)
+            oi, _, ch = stack.pop()
+            cur().append(['E', oi, i, ch])
+    while stack:
+        oi, _, ch = stack.pop()
+        cur().extend([['T', oi]] + ch)
+    return root
+
+
+def strip_el(tree):
+    return [n if n[0] == 'T' else ['E', n[1], n[2], strip_el(n[4])] for n in tree]
+
+
+def flatten(tree):
+    out = []
+    for n in tree:
+        if n[0] == 'T':
+            out.append(n[1])
+        else:
+            out.append(n[1])
+            out.extend(flatten(n[3]))
+            out.append(n[2])
+    return out
+
+
+@harness('c10_pairing', covers=['same-name-nesting', 'crossing-tags', 'stray-close', 'unclosed-open', 'demoted-with-children'])
+def c10_pairing(ctx, p):
+    L = p['len']
+    names = {k: ctx.bytes(k, 1, only=tuple(range(97, 123)))[0] for k in ('x', 'y', 'z')}
+    src = []
+    toks = []
+    for i in range(L):
+        k = SLOT_KINDS[ctx.choice(f'slot{i}', len(SLOT_KINDS))]
+        if k == 'text':
+            if toks and toks[-1][0] == 'T':
+                raise_abort()  # two adjacent text slots are one token: the shorter sequence covers it
+            src += [116]
+            toks.append(('T',))
+        elif k.startswith('open'):
+            src += [60, names[k[-1]], 62]
+            toks.append(('O', names[k[-1]]))
+        else:
+            src += [60, 47, names[k[-1]], 62]
+            toks.append(('C', names[k[-1]]))
+    exp = oracle_pairing(ctx, toks)
+    flat_e = [n for n in exp if n[0] == 'E']
+
+    def walk(t, depth):
+        for n in t:
+            if n[0] == 'E':
+                yield n, depth
+                yield from walk(n[3], depth + 1)
+    els = list(walk(exp, 0))
+    if any(ctx.symbolic is False or True for _ in ()):
+        pass
+    # input-side cover points
+    nopen = sum(1 for t in toks if t[0] == 'O')
+    nclosed = len(els)
+    if nopen > nclosed:
+        ctx.cover('unclosed-open')
+    if sum(1 for t in toks if t[0] == 'C') > nclosed:
+        ctx.cover('stray-close')
+    for n, d in els:
+        for m, d2 in walk(n[3], 0):
+            if not ctx.symbolic:
+                if toks[n[1]][1] == toks[m[1]][1]:
+                    ctx.cover('same-name-nesting')
+            else:
+                cover_if(ctx, 'same-name-nesting', b_eq(toks[n[1]][1], toks[m[1]][1]))
+        inner_opens = [j for j in range(n[1] + 1, n[2]) if toks[j][0] == 'O']
+        closed_inside = {m[1] for m, _ in walk(n[3], 0)}
+        demoted = [j for j in inner_opens if j not in closed_inside]
+        if demoted:
+            ctx.cover('crossing-tags')
+            if any(j + 1 < n[2] and j + 1 not in demoted for j in demoted):
+                ctx.cover('demoted-with-children')
+    r = ctx.impl.tree(src, [60], [62])
+    ctx.check(len(r['tokens']) == len(toks), f"{len(r['tokens'])} tokens for {len(toks)} slots", 'tokenization')
+    got = strip_el(r['tree'])
+    fl = flatten(got)
+    ctx.check(fl == list(range(len(toks))), f'flattened tree visits tokens {fl}, expected each of 0..{len(toks) - 1} once in order',
+              'token-lost-duplicated-or-reordered')
+    ctx.check(got == exp, f'tree {got} differs from the stack-discipline tree {exp}', 'pairing-mismatch')
+
+
+def raise_abort():
+    from engine import PathAbort
+    raise PathAbort()
+
+
+# ---------------------------------------------------------------- C01 (front end): totality
+def no_panic(ctx, fn, what, role='panic'):
+    try:
+        r = fn()
+    except ImplPanic as e:
+        ctx.check(False, f'{what} panics: {e}', role)
+    ctx.check(True, f'{what} returns normally')
+    return r
+
+
+@harness('c01_front', covers=['tag-present', 'blank-tag-body', 'multibyte-last-char'])
+def c01_front(ctx, p):
+    """tokenize + element_parser::parse on every tag token + parser::parse never panic"""
+    ds, de = delims(p, ctx)
+    if 'body' in p:
+        body = ctx.bytes('body', p['body'])
+        tail = ctx.bytes('tail', p.get('tail', 0))
+        src = list(ds) + body + list(de) + tail
+        cover_if(ctx, 'blank-tag-body', b_and(b_eq(b, 32) for b in body))
+    else:
+        src = ctx.bytes('src', p['n'])
+    if src:
+        cover_if(ctx, 'multibyte-last-char', is_cont_expr(src[-1]))
+    r = no_panic(ctx, lambda: ctx.impl.tags(src, ds, de), 'tokenize / element_parser::parse')
+    if any(t['kind'] == 'E' for t in r['tokens']):
+        ctx.cover('tag-present')
+    no_panic(ctx, lambda: ctx.impl.tree(src, ds, de), 'parser::parse')
